@@ -339,3 +339,9 @@ pub fn wide_f32x4(op: u32, a: [f32; 4], b: [f32; 4]) -> [u32; 4] {
         _ => [0; 4],
     }
 }
+
+/// The index into a `w` x `h` source image the highp gather stage computes for the coordinates (x, y).
+pub fn gather_index(w: u32, h: u32, x: f32, y: f32) -> Option<u32> {
+    let pm = crate::Pixmap::new(w, h)?;
+    Some(crate::pipeline::verif_gather_ix(pm.as_ref(), x, y))
+}
